@@ -312,3 +312,13 @@ def fixture_fault_enumeration(H, path):
             H.check("path_opened_file_closed_after_truncation", len(handles) == 1 and handles[0].closed,
                     witness={"file": os.path.basename(path), "cut_at": pos - 3})
     rv.errors.RAISE_CONTROLLER_VALUE_ERRORS = True
+
+
+@contract("override_canary", ["C18"], targets=_T[:1], canary=True)
+def override_canary(H, _):
+    """False claim: inside the block the flag still has its old value."""
+    old, new = H.bool("old"), H.bool("new")
+    rv.errors.RAISE_CONTROLLER_VALUE_ERRORS = old
+    exc, inside = H.raises(_use_override, new, None)
+    rv.errors.RAISE_CONTROLLER_VALUE_ERRORS = True
+    H.check("canary_flag_unchanged_inside", H.eq(inside, old))
